@@ -483,6 +483,8 @@ def trace_for(job: Job, meta, workdir: Path, pid):
     goto = str(workdir / (Path(meta["goto_file"]).name.replace(".symtab.out", "") + ".goto"))
     loops = show_loops(goto)
     args, _, _ = cbmc_args(job, meta, loops)
+    # like Kani's concrete playback: no formula slicing, so that every nondet value shows up in the trace
+    args = [a for a in args if a != "--slice-formula"]
     outp = workdir / f"{job.harness}.trace.json"
     cmd = ["cbmc"] + args + [goto, "--json-ui", "--trace", "--property", pid]
     rc, _, _ = sh(cmd, timeout=max(job.timeout, 600) * 2, logf=str(outp), mem_gb=job.mem_gb * 2)
@@ -536,6 +538,8 @@ def playback(ov: Overlay, module, harness, vals, release=False, tag="x"):
                 case = json.loads(line[k + len("REPLAY-CASE "):])
             except Exception:
                 case = {"raw": line[k:]}
+    if "Not enough det vals found" in so or "concrete_playback.rs" in so:
+        return None, case, "replay machinery: the extracted value list does not match the harness's kani::any() calls\n" + so[-1500:]
     ran = re.search(r"test result: (ok|FAILED)\. (\d+) passed; (\d+) failed", so)
     if not ran or (int(ran.group(2)) + int(ran.group(3))) == 0:
         return None, case, so[-3000:]
